@@ -104,3 +104,21 @@ func runProgram(id int, f func() any) {
 func ProbeI(tag string, v int) int          { return Probe(tag, v) }
 func ProbeS(tag string, v string) string    { return Probe(tag, v) }
 func ProbeB(tag string, v bool) bool        { return Probe(tag, v) }
+
+// foreign functions (C03): record the arguments in the order received
+func emitCall(tag string, args ...any) {
+	parts := []string{}
+	for i := range args {
+		parts = append(parts, show(reflect.ValueOf(&args[i]).Elem()))
+	}
+	fmt.Fprintf(probeOut, "EV\t%s\tT(%s)\n", tag, strings.Join(parts, ","))
+}
+
+// name of a type argument as written in Folang (int, string, bool, any)
+func typeArgName[T any]() string {
+	n := fmt.Sprintf("%T", *new(T))
+	if n == "<nil>" {
+		return "any"
+	}
+	return n
+}
